@@ -377,7 +377,8 @@ func (interp *Interpreter) cfg(root *node, sc *scope, importPath, pkgName string
 			sc = sc.pushBloc()
 			sc.loop = n.anc.anc // a break leaves the select statement
 			declareLabels(sc, n)
-			if len(n.child) > 0 && n.child[0].action == aAssign {
+			if len(n.child) > 0 && n.child[0].kind == defineStmt && n.child[0].action == aAssign {
+				// The clause declares the variable which receives the value (v := <-c).
 				ch := n.child[0].child[1].child[0]
 				var typ *itype
 				if typ, err = nodeType(interp, sc, ch); err != nil {
